@@ -77,6 +77,7 @@ fn event_name(e: &EventKind) -> &'static str {
         EventKind::Rename { .. } => "rename",
         EventKind::CloseFd { .. } => "close_fd",
         EventKind::Spawn { .. } => "spawn",
+        EventKind::UnmapNamed { .. } => "unmap",
     }
 }
 
